@@ -309,6 +309,9 @@ bool DetailedPlacement::canPlace(int c, int row, int pred, int x) const {
   if (isPlaced(c)) {
     throw std::runtime_error("Cannot attempt to place already placed cell");
   }
+  if (!isRowCompatible(c, row)) {
+    return false;
+  }
   return x >= siteBegin(row, pred) && x + cellWidth(c) <= siteEnd(row, pred);
 }
 
@@ -325,6 +328,9 @@ bool DetailedPlacement::canInsert(int c, int row, int pred) const {
     // Do not insert before itself
     return false;
   }
+  if (!isRowCompatible(c, row)) {
+    return false;
+  }
   return siteEnd(row, pred) - siteBegin(row, pred) >= cellWidth(c);
 }
 
@@ -339,7 +345,11 @@ bool DetailedPlacement::canSwap(int c1, int c2) const {
   if (cellPred(c1) == c2 || cellPred(c2) == c1) {
     // We can always swap neighbours
     return true;
-  }  // Otherwise check if there is enough space for both cells
+  }
+  if (!isRowCompatible(c1, cellRow(c2)) || !isRowCompatible(c2, cellRow(c1))) {
+    return false;
+  }
+  // Otherwise check if there is enough space for both cells
 
   int b1 = boundaryBefore(c1);
   int b2 = boundaryBefore(c2);
@@ -557,6 +567,9 @@ void DetailedPlacement::check() const {
       CellRowPolarity cellPolarity = cellRowPolarity(c);
       CellOrientation rowOrient = rows_[i].orientation;
       CellOrientation expected = cellOrientationInRow(cellPolarity, rowOrient);
+      if (expected == CellOrientation::INVALID) {
+        throw std::runtime_error("Cell is in a row forbidden by its polarity");
+      }
       if (expected != CellOrientation::UNKNOWN && cellOrient != expected) {
         throw std::runtime_error(
             "Cell orientation seems incompatible with its row");
